@@ -52,6 +52,16 @@ class NameAuthority:
             if name not in self._node_names:
                 return name
 
+    def register_value_name(self, name: str | None) -> None:
+        """Record a name carried by a value of the graph, without naming anything."""
+        if name is not None:
+            self._value_names.add(name)
+
+    def register_node_name(self, name: str | None) -> None:
+        """Record a name carried by a node of the graph, without naming anything."""
+        if name is not None:
+            self._node_names.add(name)
+
     def register_or_name_value(self, value: _core.Value) -> None:
         # TODO(justinchuby): Record names of the initializers and graph inputs
         if value.name is None:
